@@ -14,7 +14,7 @@ META = {
     'modules': ['experimental.polygonize'],
     'functions': ['xrspatial.experimental.polygonize.polygonize', '_polygonize_numpy', '_scan', '_calculate_regions', '_merge_regions', '_follow', '_is_close (generated_jit dispatch)',
                   '_transform_points'],
-    'bounds': {'quick': 'rasters 1x1, 1x3, 3x1, 2x2, 2x3, 3x3 over the alphabet {0, 1, 2} (float64) / {7, 100000, 100001} (int32) with every cell symbolic and a symbolic mask (2x3), '
+    'bounds': {'quick': 'rasters 1x1, 1x3, 3x1, 2x2, 2x3, 3x3 over the alphabet {-1.5, 0, 2} (float64; a negative member because the isclose tolerance is relative to |value|) / {7, 100000, 100001} (int32) with every cell symbolic and a symbolic mask (2x3), '
                         'connectivity 4 and 8, C and F memory order; a nested-hole 5x5 family with 4 symbolic cells; symbolic affine transform on 2x2',
                'thorough': '3x4, 2x5 and 4x4 binary rasters'},
     'stubs': ['numba.jit = identity', 'numba.extending.overload recorded and replaced by a two-stage dispatcher that calls the type generator with Integer / Float stand-ins derived from the operand dtype'],
@@ -30,12 +30,12 @@ def jobs(tier, seed):
     out = []
     for shp in ([1, 1], [1, 3], [3, 1], [2, 2], [2, 3], [3, 3]):
         for conn in (4, 8):
-            out.append({'name': 'poly-%dx%d-c%d-float' % (shp[0], shp[1], conn), 'shape': shp, 'conn': conn, 'dtype': 'float64', 'domain': [0, 1, 2] if shp != [3, 3] else [0, 1],
+            out.append({'name': 'poly-%dx%d-c%d-float' % (shp[0], shp[1], conn), 'shape': shp, 'conn': conn, 'dtype': 'float64', 'domain': [-1.5, 0, 2] if shp != [3, 3] else [0, 1],
                         'mask': False, 'layout': 'C'})
     for conn in (4, 8):
         out.append({'name': 'poly-2x3-c%d-int' % conn, 'shape': [2, 3], 'conn': conn, 'dtype': 'int32', 'domain': [7, 100000, 100001], 'mask': False, 'layout': 'C'})
         out.append({'name': 'poly-2x3-c%d-masked' % conn, 'shape': [2, 3], 'conn': conn, 'dtype': 'float64', 'domain': [0, 1], 'mask': True, 'layout': 'C'})
-        out.append({'name': 'poly-2x3-c%d-forder' % conn, 'shape': [2, 3], 'conn': conn, 'dtype': 'float64', 'domain': [0, 1, 2], 'mask': True, 'layout': 'F'})
+        out.append({'name': 'poly-2x3-c%d-forder' % conn, 'shape': [2, 3], 'conn': conn, 'dtype': 'float64', 'domain': [-1.5, 0, 2], 'mask': True, 'layout': 'F'})
         out.append({'name': 'poly-3x2-c%d-forder-int' % conn, 'shape': [3, 2], 'conn': conn, 'dtype': 'int32', 'domain': [1, 2], 'mask': False, 'layout': 'F'})
         out.append({'name': 'poly-5x5-nested-c%d' % conn, 'shape': [5, 5], 'conn': conn, 'dtype': 'float64', 'domain': [0, 1], 'mask': False, 'layout': 'C', 'base': NEST,
                     'sym': [[1, 1], [2, 2], [0, 4], [3, 2]]})
